@@ -1,7 +1,7 @@
 #!/bin/sh
 # Run /repo's own test suite with the verification guard OFF and compare with the pinned baseline:
 # every test in BASELINE.json's stable_pass must pass.
-cd /repo || exit 2
+cd "${REPO_DIR:-/repo}" || exit 2
 out=$(mktemp /var/tmp/baseline.XXXXXX)
 CARGO_NET_OFFLINE=true cargo test --workspace --no-fail-fast --offline >"$out" 2>&1
 python3 - "$out" <<'PY'
